@@ -294,4 +294,18 @@ recorded index) -/
 example : batchPanics (fun _ => true) { kv := [], latest := 5, tracker := [(5, [kK])], cfg := 0 }
     [{ idx := 3, low := none, cmd := .data [.begin 1, .vread kK (some []), .commit] }] = true := by decide
 
+/-! ### the verdict reported to the client -/
+
+/-- **The leader tells the client the verdict its FSM reached**, for one-entry and for chunked operations alike (and
+by the agreement theorems above that is the verdict of every replica whose tracker is complete; the real leader's
+reports are compared with a real follower's verdicts, entry by entry, by stream `raftleader`). -/
+theorem leader_reports_fsm_verdict (a : FsmAnswer) : reported a = a.verdict := by
+  cases a <;> rfl
+
+/-- looking for the sentinel before the chunking wrapper is removed (NOT the code; seeded change C09-3) reports a
+rejected chunked transaction as committed -/
+theorem report_before_unwrap_cex :
+    reportedBeforeUnwrap (.wrapped .conflict) = .commit ∧ (FsmAnswer.wrapped .conflict).verdict = .conflict := by
+  decide
+
 end C09
